@@ -261,7 +261,11 @@ impl InnerFilter {
     }
 
     fn progress_filtertime(&mut self, time: Time, wander: f64, config: &KalmanConfiguration) {
-        debug_assert!(time >= self.filter_time);
+        // The filter time can be ahead of `time`: a measurement stamped before a
+        // backward step of the clock (a Delay_Req in flight while a Sync made the
+        // servo step) is delivered after it and carries a time of the old time
+        // base; the steering that follows it then reads the stepped clock. In that
+        // case the state is kept as it is instead of being moved back in time.
         if time < self.filter_time {
             return;
         }
